@@ -190,6 +190,9 @@ type c19Case struct {
 	w       []uint64   // summed weight per member
 	pcs     []c19PC
 	target  int
+	// tnDelta: the commit names the target's hash with this much added to its number
+	// (0 in every judged case; non-zero only in the target-number-mismatch step)
+	tnDelta int64
 }
 
 func (c *c19Case) describe(pcs []c19PC) string {
@@ -302,7 +305,7 @@ func c19Validate[N constraints.Unsigned](c *c19Case, pcs []c19PC) (got c19Got, e
 		return got, fmt.Errorf("NewVoterSet returned nil for %s", c19FmtEntries(c.entries))
 	}
 	t := c.tr
-	commit := Commit[string, N, string, string]{TargetHash: t.label[c.target], TargetNumber: N(t.num(c.target))}
+	commit := Commit[string, N, string, string]{TargetHash: t.label[c.target], TargetNumber: N(int64(t.num(c.target)) + c.tnDelta)}
 	for _, p := range pcs {
 		id := "~outsider"
 		if p.voter >= 0 {
@@ -477,6 +480,20 @@ func TestC19Commit(t *testing.T) {
 		if fits32 {
 			if _, err := c19Judge[uint32](c, perm, "uint32, permuted"); err != nil {
 				t.Fatalf("%v", err)
+			}
+		}
+		// "the precommit GHOST is the target": a commit that names the target's hash with
+		// another block number names no block of the chain and is never valid
+		if rapid.IntRange(0, 3).Draw(t, "targetNumberMismatch") == 0 {
+			d := rapid.SampledFrom([]int64{-1, 1, 2, 7, 1 << 32}).Draw(t, "tnDelta")
+			if int64(c.tr.num(c.target))+d >= 0 {
+				c.tnDelta = d
+				got, err := c19Validate[uint64](c, c.pcs)
+				c.tnDelta = 0
+				if err == nil && got.valid {
+					t.Fatalf("uint64: a commit whose target is the hash of block #%d with number %d is valid\n%s", c.tr.num(c.target), int64(c.tr.num(c.target))+d, c.describe(c.pcs))
+				}
+				kit.Label("commit-target-number-mismatch")
 			}
 		}
 		// metamorphic relations stated on their own (also when the oracle does not judge the verdict
